@@ -71,7 +71,7 @@ def solution_cells(desc, sol, keys=None):
 
 
 def compare_with_reference(desc, observed, ctx, sig_prefix, case, overrides=None,
-                           ref=None, rel=1e-9):
+                           ref=None, rel=1e-9, annotate=None, skip=()):
     """Reports every populated cell whose observed value is not the reference
     value.  Returns the number of cells judged."""
     ev = ref or rw.Evaluator(desc, overrides)
@@ -81,6 +81,8 @@ def compare_with_reference(desc, observed, ctx, sig_prefix, case, overrides=None
         if w is rw.UNKNOWN:
             ctx.count('ref.unknown')
             continue
+        if key in skip:
+            continue
         o = observed.get(key, ('missing',))
         n += 1
         if w == xl.BLANK and o == xl.c_num(0):
@@ -89,11 +91,13 @@ def compare_with_reference(desc, observed, ctx, sig_prefix, case, overrides=None
             cell = ev.cells.get(key) or {}
             form = 'array-member' if key in ev.owner else (
                 _form(cell.get('f')) if 'f' in cell else 'constant')
-            ctx.violation('%s:%s:%s->%s' % (sig_prefix, form, _cls(o), _cls(w)), {
+            extra = annotate(key) if annotate else {}
+            tag = extra.pop('_tag', '') if extra else ''
+            ctx.violation('%s:%s%s:%s->%s' % (sig_prefix, tag, form, _cls(o), _cls(w)), dict(extra, **{
                 'case': case, 'cell': gw.key_of(desc, *key),
                 'formula': gw.formula_text(desc, cell['f'], None, True)
                 if 'f' in cell else None,
-                'observed': xl.show(o), 'accepted': [xl.show(w)]})
+                'observed': xl.show(o), 'accepted': [xl.show(w)]}))
     ctx.count('ref.cells-compared', n)
     return n
 
@@ -228,3 +232,50 @@ def observed_outputs(desc, sol_or_list, out_keys, node_ids):
             except Exception as ex:
                 out[key] = ('foreign', type(ex).__name__)
     return out
+
+
+def refs_in(desc, t, out=None):
+    """Set of cells (b, s, c, r) a formula tree reads (rectangles expanded,
+    whole rows/columns clipped to columns/rows 1..12)."""
+    out = set() if out is None else out
+    if not isinstance(t, list) or not t:
+        return out
+    k = t[0]
+    if k == 'name':
+        refs_in(desc, desc['names'][t[1]], out)
+    elif k == 'cell':
+        out.add(tuple(t[1:5]))
+    elif k == 'rng':
+        b, s, c1, r1, c2, r2 = t[1:7]
+        out.update((b, s, c, r) for c in range(c1, c2 + 1) for r in range(r1, r2 + 1))
+    elif k == 'row':
+        out.update((t[1], t[2], c, r) for c in range(1, 13) for r in range(t[3], t[4] + 1))
+    elif k == 'col':
+        out.update((t[1], t[2], c, r) for c in range(t[3], t[4] + 1) for r in range(1, 13))
+    elif k == 'bin':
+        refs_in(desc, t[2], out)
+        refs_in(desc, t[3], out)
+    elif k == 'call':
+        for a in t[2]:
+            refs_in(desc, a, out)
+    return out
+
+
+def downstream(desc, sources):
+    """All populated cells depending (transitively) on any cell of sources."""
+    ev = rw.Evaluator(desc)
+    deps = {}
+    for key, cell in ev.cells.items():
+        if 'f' in cell:
+            deps[key] = refs_in(desc, cell['f'])
+    for key, anchor in ev.owner.items():
+        deps[key] = deps.get(anchor, set()) | {anchor}
+    hit = set(sources)
+    changed = True
+    while changed:
+        changed = False
+        for key, rs_ in deps.items():
+            if key not in hit and rs_ & hit:
+                hit.add(key)
+                changed = True
+    return hit
